@@ -122,6 +122,9 @@ func verifDrawClass(rng *rand.Rand, class string) verifDraw {
 		switch rng.Intn(3) {
 		case 0:
 			off := rng.Intn(14)
+			if t.Add(time.Duration(off)*time.Hour).Year() > 9999 {
+				off = 0 /* the local time would be in the year 10000, which the format cannot say */
+			}
 			text = t.Add(time.Duration(off)*time.Hour).Format("2006-01-02T15:04:05") + fmt.Sprintf("+%02d:00", off)
 		case 1:
 			t = t.Add(123 * time.Millisecond)
